@@ -111,6 +111,11 @@ _NONLV = (('folded-conditional-true', '(1 ? cobj : cobj)'), ('folded-conditional
           ('comma', '(cobj, cobj)'), ('cast', '(int)cobj'), ('assignment', '(cobj = 1)'), ('compound-assignment', '(cobj += 1)'), ('pre-increment', '(++cobj)'),
           ('post-increment', '(cobj++)'), ('unary-plus', '(+cobj)'), ('negation', '(-cobj)'), ('call', 'cfn0()'), ('sum', '(cobj + 0)'), ('address', '(&cobj)'),
           ('folded-logical', '(1 && cobj)'), ('sizeof', 'sizeof(cobj)'), ('enum-constant', 'CE1'), ('compound-literal-value', '((int){1} + 0)'), ('generic-rvalue', '_Generic(0, int: cobj + 0)'))
+_NONLV += (('unary-plus-float', '(+cflt)'), ('negation-float', '(-cflt)'), ('cast-float', '(float)cflt'), ('cast-to-same-type-float', '(float)(cflt)'), ('conditional-float', '(cobj ? cflt : cflt)'),
+           ('folded-conditional-float-operands', '(1 ? cflt : cflt)'), ('comma-float', '(cobj, cflt)'), ('assignment-float', '(cflt = 1)'), ('sum-float', '(cflt + 0)'),
+           ('folded-conditional-pointer', '(1 ? cptr : cptr)'), ('cast-pointer', '(int *)cptr'), ('conditional-pointer', '(cobj ? cptr : cptr)'), ('sum-pointer', '(cptr + 0)'),
+           ('unary-plus-bit-field', '(+cstr.bf)'), ('unary-plus-member', '(+cstr.m)'), ('unary-plus-char-element', '(+cstr.arr[1])'), ('unary-plus-long', '(+*(long *)cptr)'),
+           ('unary-plus-double', '(+*cdptr)'), ('negation-double', '(-*cdptr)'), ('cast-double', '(double)*cdptr'), ('unary-plus-enum', '(+*(enum ce *)cptr)'), ('unary-plus-bool', '(+*(_Bool *)cptr)'))
 _LVOPS = (('assigned', '%s = 3;'), ('compound-assigned', '%s += 3;'), ('post-incremented', '%s++;'), ('pre-decremented', '--%s;'), ('address-taken', '(void)&%s;'))
 for _n, _e in _NONLV:
     for _on, _o in _LVOPS:
